@@ -234,8 +234,9 @@ Proof.
   assert (Hi : N.to_nat s < length ds) by lia.
   rewrite (nth_indep _ None (Some (all_X w))) by (rewrite map_length; exact Hi).
   rewrite map_nth.
-  rewrite Forall_forall in Hall. specialize (Hall (nth (N.to_nat s) ds (all_X w)) (nth_In _ _ Hi)).
-  rewrite <- Hall. apply bv_resize_id.
+  rewrite Forall_forall in Hall.
+  assert (E : forall d : bv, length d = w -> bv_resize w d = d) by (intros d <-; apply bv_resize_id).
+  apply E. apply Hall. apply nth_In. exact Hi.
 Qed.
 
 (* ---- std_logic_1164 logic on vectors ---- *)
